@@ -841,6 +841,33 @@ def r4_r5_copies(ctx: Context, rule4: str = "C04.R4", rule5: str = "C04.R5") -> 
                           f"`{norm(ic)[:80]}` does not start the copy from the configured totals")
             if kind == "__copy__":
                 _shared_mutable_values(ctx, rule, cls, cname, value_shares)
+                # instance.F = dict(self.F) / self.F.copy() / {k: v for k, v in self.F.items()}: a new table, the same values
+                for n in ast.walk(fn):
+                    if not (isinstance(n, ast.Assign) and len(n.targets) == 1 and isinstance(n.targets[0], ast.Attribute)
+                            and isinstance(n.targets[0].value, ast.Name) and n.targets[0].value.id == "instance"):
+                        continue
+                    f = mangle(cname, n.targets[0].attr)
+                    v = n.value
+                    shallow = None
+                    if isinstance(v, ast.Call) and call_name(v) in ("dict", "copy") and v.args and is_self_attr(v.args[0]) and mangle(cname, v.args[0].attr) == f:
+                        shallow = norm(v)
+                    elif isinstance(v, ast.Call) and isinstance(v.func, ast.Attribute) and v.func.attr == "copy" and is_self_attr(v.func.value) \
+                            and mangle(cname, v.func.value.attr) == f:
+                        shallow = norm(v)
+                    elif isinstance(v, ast.DictComp) and len(v.generators) == 1 and isinstance(v.generators[0].target, ast.Tuple) \
+                            and len(v.generators[0].target.elts) == 2 and isinstance(v.value, ast.Name) \
+                            and norm(v.value) == norm(v.generators[0].target.elts[1]) and f.lstrip("_") in norm(v.generators[0].iter):
+                        shallow = norm(v)
+                    if shallow is None:
+                        continue
+                    mutated = _values_mutated_in_place(cls, f)
+                    key = f"{cname}.__copy__|values of {f} shared"
+                    if mutated is not None:
+                        ctx.violation(rule, key, loc(n),
+                                      f"`{norm(n)[:80]}` gives the copy a new table holding the SAME values as the original's `{f}`, and {cname}.{mutated[0]} "
+                                      f"mutates those values in place (`{mutated[1][:60]}`): the copy is not an independent snapshot")
+                    else:
+                        ctx.ok(rule, key, loc(n), "values shared but never mutated in place by the class")
     ctx.floor(rule4, "classes with __copy__/__deepcopy__", n_cls, 4)
     # Resources.__copy__ re-applies every recorded allocation
     rcls = ctx.repo.mod(RESOURCES).cls("Resources")
